@@ -222,8 +222,13 @@ class ExprFn:
                 v = s.value
                 if name == self.vec:
                     # n = ensure_numpy(n): identity on the mathematical vector
+                    # n = np.asarray(n) / ensure_numpy(n) / np.asarray(n, dtype=float): the same numbers (a conversion to float is
+                    # the identity on the exact-rational / real model; the float64 evaluation is tied by correspondence)
+                    kw_ok = isinstance(v, ast.Call) and all(k.arg == 'dtype' and ((isinstance(k.value, ast.Name) and k.value.id == 'float') or
+                                                      (isinstance(k.value, ast.Attribute) and k.value.attr in ('float64', 'double')))
+                                for k in v.keywords)
                     if isinstance(v, ast.Call) and len(v.args) == 1 and isinstance(v.args[0], ast.Name) \
-                            and v.args[0].id == self.vec and not v.keywords and (
+                            and v.args[0].id == self.vec and kw_ok and (
                             (isinstance(v.func, ast.Name) and v.func.id in self.IDENT_CALLS) or
                             (isinstance(v.func, ast.Attribute) and v.func.attr in self.IDENT_CALLS)):
                         continue
